@@ -10,3 +10,6 @@ func Yield() {}
 
 // YieldLock is a no-op unless built with -tags verif.
 func YieldLock() {}
+
+// Held is a no-op unless built with -tags verif.
+func Held(int) {}
